@@ -639,6 +639,7 @@ package ggql
 //@   assigns nothing
 
 //@ func (*Root).resolveInline
+//@   requires[object-present] obj != nil
 //@   requires[binding-locks-free]{C12} onlyRegistryLock(root)
 //@   decreases{C03} depth
 //@   decreases 3
@@ -656,6 +657,7 @@ package ggql
 //@   ensures[locks-balanced]{C12,C20} held == old(held)
 
 //@ func (*Root).resolveFragRef
+//@   requires[object-present] obj != nil
 //@   requires[binding-locks-free]{C12} onlyRegistryLock(root)
 //@   decreases{C03} depth
 //@   decreases 3
@@ -672,6 +674,7 @@ package ggql
 //@   ensures[locks-balanced]{C12,C20} held == old(held)
 
 //@ func (*Root).resolveSels
+//@   requires[object-present] obj != nil
 //@   requires[binding-locks-free]{C12} onlyRegistryLock(root)
 //@   decreases{C03} depth
 //@   decreases 3
@@ -819,13 +822,20 @@ package ggql
 //@ -- (*Root).resolveReflect: contract in verif_contracts_c12.go
 
 //@ func (*Root).addError
-//@   abstract (not yet checked against the body)
+//@   props C06
+//@   check panic {C03}
 //@   requires f != nil && err != nil
 //@   ensures forall lo int, hi int {old(errsInc(ea, lo, hi))} :: old(errsInc(ea, lo, hi)) && lo <= hi && hi <= old(#alloc) ==> errsInc(res, lo, #alloc)
-//@   ensures len(res) > len(ea)
-//@   ensures fresh(res)
-//@   ensures #res == old(#res)
+//@   ensures[grows] len(res) >= len(ea)
+//@   ensures[fresh] len(res) > len(ea) ==> fresh(res)
+//@   ensures[res-ghost] #res == old(#res)
+//@   ensures[same] len(res) == len(ea) ==> res == ea
 //@   assigns fresh
+//@   loop 0: invariant[grows] len(ea) >= old(len(ea))
+//@           invariant[same] len(ea) == old(len(ea)) ==> ea == old(ea)
+//@           invariant[fresh] len(ea) > old(len(ea)) ==> fresh(ea)
+//@           invariant[inc] forall lo int, hi int {old(errsInc(ea, lo, hi))} :: old(errsInc(ea, lo, hi)) && lo <= hi && hi <= old(#alloc) ==> errsInc(ea, lo, #alloc)
+//@           invariant[res-ghost] #res == old(#res)
 
 //@ interface OutCoercer.CoerceOut
 //@   ensures[err-null] err != nil ==> res == nil
@@ -900,6 +910,7 @@ package ggql
 //@           decreases cnt - i
 
 //@ func (*Root).resolveField
+//@   requires[object-present] obj != nil
 //@   requires[binding-locks-free]{C12} onlyRegistryLock(root)
 //@   decreases{C03} depth
 //@   decreases 1
@@ -920,6 +931,7 @@ package ggql
 //@   ensures[locks-balanced]{C12,C20} held == old(held)
 
 //@ func (*Root).resolveFieldSels
+//@   requires[object-present] obj != nil
 //@   requires[binding-locks-free]{C12} onlyRegistryLock(root)
 //@   decreases{C03} depth
 //@   decreases 4
@@ -941,6 +953,7 @@ package ggql
 //@ -- (*Root).subscribe: contract in verif_contracts_c19.go
 
 //@ func (*Root).ResolveExecutable
+//@   requires[schema-object] root.obj != nil
 //@   requires[binding-locks-free]{C12} onlyRegistryLock(root)
 //@   props C01
 //@   check panic {C03}
